@@ -106,6 +106,7 @@ func (t *traceStats) summarize(c *fw.Case, valid bool) (string, bool) {
 
 // modelCase is one (universe, instances) comparison between the library and the reference model.
 type modelCase struct {
+	priorRoots []string // roots resolved earlier through the same (then caching) Loader
 	draft    refmodel.Draft
 	rootText string
 	baseURI  string
@@ -158,6 +159,19 @@ func (mc *modelCase) build(c *fw.Case) (m *refmodel.Model, rs *jsonschema.Resolv
 	ld = &mapLoader{docs: mc.docs, fail: mc.loadErr}
 	if !mc.noLoader {
 		opts.Loader = ld.load
+	}
+	if len(mc.priorRoots) > 0 && !mc.noLoader {
+		// call history through a CACHING Loader: other roots (of another draft) were resolved before, and the Loader now
+		// serves the very same document objects to the root under test
+		ld.caching = true
+		for _, pr := range mc.priorRoots {
+			var ps jsonschema.Schema
+			if json.Unmarshal([]byte(pr), &ps) == nil {
+				fw.Call(func() { _, _ = ps.Resolve(opts) })
+			}
+		}
+		ld.requests = nil
+		c.Count("resolved_after_other_roots_through_a_caching_loader", 1)
 	}
 	rs, lerr, okc := compileDoc(c, mc.rootText, opts)
 	if !okc {
